@@ -323,7 +323,7 @@ func init() {
 				}
 			} else if sp.name == "X6" {
 				continue
-			} else if sp.name == "X10" || sp.name == "X12" || sp.name == "X13" || sp.name == "X15" || sp.name == "X18" {
+			} else if sp.name == "X10" || sp.name == "X12" || sp.name == "X13" || sp.name == "X15" || sp.name == "X18" || sp.name == "X20" {
 				bound = 1
 			}
 			out = append(out, Plan{Sc: c16Scenario(sp), Bound: bound})
